@@ -685,12 +685,109 @@ func (fx *FnExec) callDeferred(fr *frame, st *State, d *ssa.Defer) {
 	fx.havocCall(fr, st, "deferred dynamic call", args, rt, "deferred call through function value")
 }
 
-// ---- maps (abstract)
+// ---- maps: (dom, val) families per map type when key and value have simple shapes
+
+func mapTypeKey(t types.Type) string { return typeKey(under(t)) }
+
+// mapKeySort: SMT sort used for keys of this Go type (nil: unsupported, map stays abstract).
+func mapKeySort(k types.Type) *Sort {
+	if w, _, ok := intWidth(k); ok && !isFloat(k) {
+		return BV(w)
+	}
+	if isBoolT(k) {
+		return BoolSort
+	}
+	if isStringT(k) {
+		return UnintSort("StrKey")
+	}
+	switch u := under(k).(type) {
+	case *types.Pointer:
+		return RefSort
+	case *types.Array:
+		if b, ok := under(u.Elem()).(*types.Basic); ok && b.Kind() == types.Uint8 && u.Len() <= 64 && u.Len() > 0 {
+			return BV(int(8 * u.Len()))
+		}
+	}
+	return nil
+}
+
+func (fx *FnExec) mapModelled(mt *types.Map) bool {
+	if mapKeySort(mt.Key()) == nil {
+		return false
+	}
+	if isObjT(mt.Elem()) {
+		return false
+	}
+	return leavesOf(mt.Elem()) != nil
+}
+
+// mapKeyTerm converts a key value to its SMT key term.
+func (fx *FnExec) mapKeyTerm(st *State, kt types.Type, v Val) *Term {
+	c := fx.c
+	switch x := v.(type) {
+	case *Term:
+		if at, ok := under(kt).(*types.Array); ok {
+			return fx.packBytes(x, at.Len())
+		}
+		return x
+	case PtrV:
+		if at, ok := under(kt).(*types.Array); ok && x.Kind == PObj {
+			_ = at
+			return fx.mapKeyTerm(st, kt, fx.loadObj(st, kt, x.Ref))
+		}
+		return fx.ptrRef(x)
+	case StrV:
+		return c.App("strkey", UnintSort("StrKey"), x.Arr, x.Off, x.Len)
+	}
+	fx.oos("map key of shape %T", v)
+	return nil
+}
+
+func (fx *FnExec) mapDom(st *State, mt *types.Map) (string, *Term) {
+	key := "MD|" + mapTypeKey(mt)
+	return key, fx.family(st, key, ArrSort(RefSort, ArrSort(mapKeySort(mt.Key()), BoolSort)))
+}
+
+func (fx *FnExec) mapValFam(st *State, mt *types.Map, lf leaf) (string, *Term) {
+	key := "MV|" + mapTypeKey(mt) + "|" + lf.name
+	return key, fx.family(st, key, ArrSort(RefSort, ArrSort(mapKeySort(mt.Key()), lf.sort)))
+}
+
+// mapRead returns (present, stored value) for m[k].
+func (fx *FnExec) mapRead(st *State, mt *types.Map, m, k *Term) (*Term, Val) {
+	c := fx.c
+	_, dom := fx.mapDom(st, mt)
+	ok := c.And(c.Not(c.Eq(m, fx.nilRef())), c.Select(c.Select(dom, m), k))
+	var ls []*Term
+	for _, lf := range leavesOf(mt.Elem()) {
+		_, vf := fx.mapValFam(st, mt, lf)
+		ls = append(ls, c.Select(c.Select(vf, m), k))
+	}
+	return ok, fx.fromLeaves(mt.Elem(), ls, true)
+}
 
 func (fx *FnExec) mapLookup(fr *frame, st *State, x *ssa.Lookup) Val {
 	c := fx.c
 	mt := x.X.Type().Underlying().(*types.Map)
-	fx.drop("map lookup (result unconstrained: any value, present or absent)")
+	if fx.mapModelled(mt) {
+		m := fx.val(fr, x.X).(*Term)
+		k := fx.mapKeyTerm(st, mt.Key(), fx.val(fr, x.Index))
+		ok, v := fx.mapRead(st, mt, m, k)
+		if why, nn := fx.eng.db.NonNilMaps[mapTypeKey(mt)]; nn {
+			if pv, isP := v.(PtrV); isP && pv.Ref != nil {
+				fx.assumeGlobal(c.Implies(ok, c.Not(c.Eq(pv.Ref, fx.nilRef()))))
+				fx.note("map invariant: values stored in " + mapTypeKey(mt) + " are non-nil (" + why + ")")
+			}
+		} else {
+			fx.markNilable(v)
+		}
+		res := fx.mergeVal(ok, v, fx.zeroVal(mt.Elem()))
+		if x.CommaOk {
+			return TupleV{res, ok}
+		}
+		return res
+	}
+	fx.drop("map lookup on " + mapTypeKey(mt) + " (result unconstrained: any value, present or absent)")
 	v := fx.freshVal(mt.Elem(), "maplookup")
 	fx.markNilable(v)
 	ok := c.Fresh("mapok", BoolSort)
@@ -705,14 +802,38 @@ func (fx *FnExec) mapLookup(fr *frame, st *State, x *ssa.Lookup) Val {
 }
 
 func (fx *FnExec) mapUpdate(fr *frame, st *State, x *ssa.MapUpdate, m *Term) {
-	fx.escape(fr, st, fx.val(fr, x.Value))
+	c := fx.c
+	val := fx.val(fr, x.Value)
+	fx.escape(fr, st, val)
 	fx.escape(fr, st, fx.val(fr, x.Key))
+	fx.frameWrite(fr, st, m, x.Pos(), "update a map that existed before the call")
 	fx.mapWrites = append(fx.mapWrites, mapWrite{pc: st.pc, typ: typeKey(x.Map.Type()), pos: fx.posOf(fr, x.Pos()), m: m})
+	mt := x.Map.Type().Underlying().(*types.Map)
+	if !fx.mapModelled(mt) {
+		return
+	}
+	k := fx.mapKeyTerm(st, mt.Key(), fx.val(fr, x.Key))
+	dk, dom := fx.mapDom(st, mt)
+	fx.setFamily(st, dk, c.Store(dom, m, c.Store(c.Select(dom, m), k, c.True())))
+	lvs := fx.toLeaves(mt.Elem(), fx.coerce(val, mt.Elem()))
+	for i, lf := range leavesOf(mt.Elem()) {
+		vk, vf := fx.mapValFam(st, mt, lf)
+		fx.setFamily(st, vk, c.Store(vf, m, c.Store(c.Select(vf, m), k, lvs[i])))
+	}
 }
 
 func (fx *FnExec) mapDelete(fr *frame, st *State, cc *ssa.CallCommon, args []Val) {
+	c := fx.c
 	m, _ := args[0].(*Term)
+	fx.frameWrite(fr, st, m, cc.Pos(), "delete from a map that existed before the call")
 	fx.mapWrites = append(fx.mapWrites, mapWrite{pc: st.pc, typ: typeKey(cc.Args[0].Type()), pos: fx.posOf(fr, cc.Pos()), m: m, del: true})
+	mt := cc.Args[0].Type().Underlying().(*types.Map)
+	if !fx.mapModelled(mt) || m == nil {
+		return
+	}
+	k := fx.mapKeyTerm(st, mt.Key(), args[1])
+	dk, dom := fx.mapDom(st, mt)
+	fx.setFamily(st, dk, c.Store(dom, m, c.Store(c.Select(dom, m), k, c.False())))
 }
 
 type mapWrite struct {
@@ -738,7 +859,7 @@ func (fx *FnExec) callEffects(fr *frame, cc *ssa.CallCommon, li *loopInfo, addrE
 				out["M|"+typeKey(et)+"|"] = true
 			}
 		case "delete":
-			out["map"] = true
+			out["MD|"+mapTypeKey(cc.Args[0].Type())] = true
 		case "clear":
 			out["*"] = true
 		}
@@ -806,7 +927,8 @@ func (fx *FnExec) callEffects(fr *frame, cc *ssa.CallCommon, li *loopInfo, addrE
 				case *ssa.Call:
 					fx.callEffects(fr, x.Common(), li, func(v ssa.Value) { fx.storeFamilies(v, out) })
 				case *ssa.MapUpdate:
-					out["map"] = true
+					out["MD|"+mapTypeKey(x.Map.Type())] = true
+					out["MV|"+mapTypeKey(x.Map.Type())+"|"] = true
 				}
 			}
 		}
